@@ -267,7 +267,7 @@ structure FdtRecv (σ : Type) where
   check : Bool
   /-- `meta.is_some()` -/
   hasMeta : Bool
-  /-- `inner.data.len()`: every `FdtWriter::write` appends, nothing ever bounds or clears it -/
+  /-- `inner.data.len()`: every `FdtWriter::write` appends, up to `maxFdtSize` (MAX_FDT_SIZE) -/
   bytes : Nat
   /-- `first_fti`: FEC OTI and transfer length announced by the first packet pushed to this instance -/
   fti : Option Fti
@@ -278,15 +278,24 @@ def FdtRecv.new (I : ObjIface σ) (fdtId : Nat) (check : Bool) : FdtRecv σ :=
   { fdtId, obj := some (I.new 0 (1024 * 1024)), st := .receiving, expires := none, inst := none,
     utf8 := false, offset := none, late := true, check, hasMeta := false, bytes := 0, fti := none }
 
+/-- `MAX_FDT_SIZE` (fdtreceiver.rs, repair 2037586): the FDT writer refuses to grow beyond it -/
+def maxFdtSize : Nat := 16 * 1024 * 1024
+
 /-- the calls the inner object makes on its `FdtWriter` change `inner` -/
 def FdtRecv.applyWEv (ans : FdtAns) (f : FdtRecv σ) : WEv → FdtRecv σ
   | .complete =>
+    -- a writer that refused a write (below) was told `error` by its object, which then stops: nothing
+    -- the object model (whose writer never fails) still emits in this call counts
+    if f.st = .error then f else
     match ans with
     | .ok fdt u => { f with expires := fdt.writerExpires, inst := some fdt, st := .complete, utf8 := u }
     | .err => { f with st := .error }
   | .error => { f with st := .error }
   | .interrupted => { f with st := .error }
-  | .write _ len => { f with bytes := f.bytes + len }
+  | .write _ len =>
+    -- `FdtWriter::write`: `Err` when the document would exceed MAX_FDT_SIZE; the object ends in error,
+    -- `push_fdt_obj` returns `Err` and drops the instance (9bde117)
+    if f.bytes + len > maxFdtSize then { f with st := .error } else { f with bytes := f.bytes + len }
   | _ => f
 
 def FdtRecv.applyWEvs (ans : FdtAns) (f : FdtRecv σ) (evs : List WEv) : FdtRecv σ :=
